@@ -217,6 +217,8 @@ def run(ctx):
                     return np.asarray(r.read(*q).data)
                 except Warning:
                     races.append(1)
+                except Exception as e:          # a concurrent read that raises is a finding, not a harness error
+                    return ('raised', repr(e))
             return None
         races = []
         with cf.ThreadPoolExecutor(max_workers=16) as ex:
@@ -230,6 +232,9 @@ def run(ctx):
             ctx.count('mode:threads')
             if out is None:
                 ctx.count('thread_read_gave_up')
+                continue
+            if isinstance(out, tuple):
+                ctx.fail('concurrent_read_raised', dict(reader=s.name, offset=q[0], n=q[1], mode='threads16'), impl=out[1])
                 continue
             if not np.array_equal(out, results[q]):
                 ctx.fail('concurrent_read_differs', dict(reader=s.name, offset=q[0], n=q[1], mode='threads16'))
